@@ -50,8 +50,10 @@ Images == { ImgOf(g, 1, 2, 5, Exam0) : g \in Geos }                             
 MTypes == { [int |-> TRUE, signed |-> TRUE, bits |-> 3, bytes |-> 1], [int |-> TRUE, signed |-> FALSE, bits |-> 3, bytes |-> 1],
             [int |-> TRUE, signed |-> TRUE, bits |-> 7, bytes |-> 1], [int |-> TRUE, signed |-> FALSE, bits |-> 8, bytes |-> 1],
             [int |-> TRUE, signed |-> FALSE, bits |-> 1, bytes |-> 2], [int |-> FALSE, signed |-> TRUE, bits |-> 24, bytes |-> 4] }
+          \cup (IF Deep THEN { [int |-> TRUE, signed |-> TRUE, bits |-> 5, bytes |-> 2], [int |-> TRUE, signed |-> FALSE, bits |-> 6, bytes |-> 4],
+                               [int |-> FALSE, signed |-> TRUE, bits |-> 53, bytes |-> 8] } ELSE { })
 \* (all rational arithmetic stays below 2^31 for bits <= 8 and MaxAmp <= 800: TLC reports an overflow as an error)
-Users == { << 0, 1 >>, << 1, 1 >>, << 2, 1 >>, << 1, 2 >>, << 8, 1 >> }
+Users == { << 0, 1 >>, << 1, 1 >>, << 2, 1 >>, << 1, 2 >>, << 8, 1 >> } \cup (IF Deep THEN { << 1, 4 >>, << 3, 1 >>, << 16, 1 >>, << 5, 3 >> } ELSE { })
 
 Init == /\ img \in Images /\ ty = [int |-> FALSE, signed |-> TRUE, bits |-> 24, bytes |-> 4] /\ user = << 0, 1 >>
         /\ file = NoFile /\ res = [ok |-> FALSE] /\ phase = "fresh" /\ truncated = FALSE
